@@ -179,15 +179,15 @@ example : intoRange 6 (.excl 0) (.incl 3) = .ok (1, 4) := by decide
 /-! ### over whole histories -/
 
 /-- **history theorem**: from every reachable world, `drain` over any range form, consumed from either
-end in any pattern (each item dropped, forgotten, downcast or inspected), then dropped or forgotten —
+end in any pattern (each item dropped, forgotten, downcast, inspected, moved or lazily cloned into another vector), then dropped or forgotten —
 with a panic injected at any user-code call — keeps the world invariant (no element duplicated,
 destroyed twice or destroyed while visible; every vector well formed) and never faults on memory. -/
 theorem history_drain_core (cfg : Cfg) (w : World) (hr : Hist.Reach cfg w) (v : Nat) (lo hi : Bnd) (typed : Bool)
     (eats : List (End × Sink)) (fin : Fin) (f : Option Nat) (hv : Hist.liveVec w.vecs v)
-    (hc : ∀ p ∈ eats, p.2.Core) :
+    (hc : ∀ p ∈ eats, p.2.ValidItem w.vecs v typed) :
     (runStep cfg (.drain v lo hi typed eats fin) f w).1.Inv ∧
       (runStep cfg (.drain v lo hi typed eats fin) f w).2.notUb :=
-  Hist.runStep_inv cfg (.drain v lo hi typed eats fin) f w (Hist.reach_inv_core cfg w hr) hc hv
+  Hist.runStep_inv cfg (.drain v lo hi typed eats fin) f w (Hist.reach_inv_core cfg w hr) trivial ⟨hv, hc⟩
 
 /-- **history theorem**: from every reachable world, `splice` over any range form with replacement values
 (owning wrappers or raw pointers) of *any* types, a replacement iterator claiming *any* length, consumed
@@ -195,10 +195,10 @@ from either end in any pattern, then dropped or forgotten — with a panic injec
 (a sink, a destructor, the iterator's `next`) — keeps the world invariant and never faults on memory. -/
 theorem history_splice_core (cfg : Cfg) (w : World) (hr : Hist.Reach cfg w) (v : Nat) (lo hi : Bnd) (typed : Bool)
     (repl : List Src) (claim : Int) (eats : List (End × Sink)) (fin : Fin) (f : Option Nat)
-    (hv : Hist.liveVec w.vecs v) (hrepl : ∀ r ∈ repl, r.Plain) (hc : ∀ p ∈ eats, p.2.Core) :
+    (hv : Hist.liveVec w.vecs v) (hrepl : ∀ r ∈ repl, r.Plain) (hc : ∀ p ∈ eats, p.2.ValidItem w.vecs v typed) :
     (runStep cfg (.splice v lo hi typed repl claim eats fin) f w).1.Inv ∧
       (runStep cfg (.splice v lo hi typed repl claim eats fin) f w).2.notUb :=
-  Hist.runStep_inv cfg (.splice v lo hi typed repl claim eats fin) f w (Hist.reach_inv_core cfg w hr) ⟨hrepl, hc⟩ hv
+  Hist.runStep_inv cfg (.splice v lo hi typed repl claim eats fin) f w (Hist.reach_inv_core cfg w hr) hrepl ⟨hv, hc⟩
 
 end C02
 end AnyVec
